@@ -756,7 +756,7 @@ pub fn nested_family() -> Vec<String> {
                         let gd = format!("g : (int -> int) = (y : int) => {gb}");
                         let fd2 = fd.clone();
                         let gd2 = format!("g : (int -> int) = (y : int) => y + c");
-                        let mut defs = if f_first { vec![fd, gd] } else { vec![gd, fd] };
+                        let mut defs = if f_first { vec![fd, gd.clone()] } else { vec![gd.clone(), fd] };
                         let body = if res.is_empty() { body.replace('r', "f 3") } else { body.to_owned() };
                         // with and without two further, independent helper functions after f and g
                         let mut with_helpers = defs.clone();
@@ -768,6 +768,13 @@ pub fn nested_family() -> Vec<String> {
                         }
                         out.push(format!("{}; {body}", defs.join("; ")));
                         out.push(format!("{}; {body}", with_helpers.join("; ")));
+                        // the computed result FIRST, before the (recursive) functions it calls: functions are
+                        // values and therefore available to the whole group
+                        if !res.is_empty() {
+                            let mut result_first = vec![res.to_owned()];
+                            result_first.extend(if f_first { vec![fd2.clone(), gd.clone()] } else { vec![gd.clone(), fd2.clone()] });
+                            out.push(format!("{}; {body}", result_first.join("; ")));
+                        }
                         // a non-value constant defined AFTER the functions that use it and before the
                         // result that calls them (forward reference from a function to a non-value)
                         if !res.is_empty() && gb == "y + 1" {
